@@ -83,9 +83,15 @@ func verifEpollCtl(epfd, op, fd int, event *epollevent) error {
 	return nil
 }
 
+// injection point used by sequential harnesses: the kernel has just released the number
+var verifCloseHook func(fd int)
+
 func verifSysClose(fd int) error {
 	n := atomic.AddInt32(&verifK.fdClose, 1)
 	verifAssert(n == 1, "C05/descriptor-closed-twice")
+	if h := verifCloseHook; h != nil {
+		h(fd)
+	}
 	return nil
 }
 
